@@ -448,6 +448,7 @@ package termincommittee
 
 //@ func (*TermInCommittee).checkCommitted
 //@   assert before call onCommit [O13.4.marked-committed-before-the-callback] tic.committedBlock != nil
+//@   assert before call onCommit [O13.4.the-callback-is-reached-only-through-the-open-latch] old(tic.committedBlock) == nil
 //@   assert before call For [O15.7.commit-runs-under-the-term-wide-context] $hv.height == tic.State.height && $hv.view == 18446744073709551615
 //@   requires [term-not-yet-committed] ncommitted == 0
 //@   ensures [O9.lock-kept] LockKept(tic, old(tic.preparedLocally), old(tic.preparedLocally.isPreparedLocally), old(tic.preparedLocally.latestView))
@@ -699,7 +700,7 @@ package termincommittee
 //@   requires [term-not-yet-committed] ncommitted == 0
 //@   ensures [O9.lock-kept] LockKept(tic, old(tic.preparedLocally), old(tic.preparedLocally.isPreparedLocally), old(tic.preparedLocally.latestView))
 //@   assert before call ValidateBlockCommitment [O4.the-block-shipped-with-a-vote-is-checked-against-the-proven-hash] $blockHeight == vcm.content.SignedHeader().BlockHeight() && $block == vcm.block && $blockHash == vcm.content.SignedHeader().PreparedProof().PreprepareBlockRef().BlockHash()
-//@   props C08 C09 C07 C10 C12 C11 C18
+//@   props C08 C09 C07 C10 C12 C11 C18 C04
 //@   safety iface
 //@   requires TicOK(tic)
 //@   inv GhostInv(tic)
@@ -794,7 +795,7 @@ package termincommittee
 // empty when the term object is created is a modelling convention (entry-assume), not a fact about code.
 //@ func NewTermInCommittee
 //@   assert before call startTerm [hint.the-new-term-shares-the-node-state] $tic.State == state && state.view >= 0 && $tic.latestViewThatProcessedVCMOrNVM == 0
-//@   props C12 C08 C10 C11
+//@   props C12 C08 C10 C11 C18
 //@   safety iface
 //@   requires [A-NONNIL.the-configured-spi-objects-are-present] config != nil && config.KeyManager != nil && config.BlockUtils != nil && config.Membership != nil && config.Communication != nil && state != nil && messageFactory != nil && electionTrigger != nil
 //@   requires [committee.at-least-the-hard-minimum] len(committeeMembers) >= 4
